@@ -80,6 +80,8 @@ def operand_order_program(rng):
          "fn p(x: int) -> int {\n    (println x)\n    return x\n}\nshadow p { assert (== 1 1) }\n"
          "fn pb(x: int, r: bool) -> bool {\n    (println x)\n    return r\n}\nshadow pb { assert (== 1 1) }\n"
          "fn bump() -> int {\n    set level (+ level 10)\n    return level\n}\nshadow bump { assert (== 1 1) }\n"
+         "fn ps(x: int) -> string {\n    (println x)\n    return (int_to_string x)\n}\nshadow ps { assert (== 1 1) }\n"
+         "fn add3(a: int, b: int, c: int) -> int {\n    return (+ (* a 100) (+ (* b 10) c))\n}\nshadow add3 { assert (== 1 1) }\n"
          "fn main() -> int {\n"]
     k = 100
     ops = ["+", "-", "*", "/", "%", "==", "!=", "<", "<=", ">", ">="]
@@ -91,6 +93,18 @@ def operand_order_program(rng):
         L.append("    (println (%s level (bump)))\n" % op)
         L.append("    (println (%s (bump) level))\n" % op)
         L.append("    (println (%s (+ 1 (p %d)) (* 2 (p %d))))\n" % (op, k * 10 + 1, k * 10 + 2))
+    # string operators, calls, array literals and array builtins with effectful arguments
+    L.append("    (println (+ (ps %d) (ps %d)))\n" % (k * 10 + 3, k * 10 + 4))
+    L.append("    (println (== (ps %d) (ps %d)))\n" % (k * 10 + 5, k * 10 + 6))
+    L.append("    (println (!= (ps %d) (+ (ps %d) (ps %d))))\n" % (k * 10 + 7, k * 10 + 8, k * 10 + 9))
+    L.append("    (println (add3 (p 1) (p 2) (p 3)))\n")
+    L.append("    (println (add3 level (bump) level))\n")
+    L.append("    (println (add3 (add3 (p 4) 0 (p 5)) (p 6) (add3 (p 7) (p 8) (bump))))\n")
+    L.append("    let arr: array<int> = [(p 11), (p 12), (bump), level]\n    (println arr)\n")
+    L.append("    (println (at [(p 13), (p 14)] (p 1)))\n")
+    L.append("    let mut arr2: array<int> = [1, 2, 3]\n    set arr2 (array_push arr2 (p 15))\n    (println arr2)\n    (array_set arr2 (p 2) (p 16))\n")
+    L.append("    (println (str_concat (ps 17) (ps 18)))\n")
+    L.append("    (println (max (p 19) (p 20)))\n")
     for op in ("and", "or"):
         for la in ("true", "false"):
             for rb in ("true", "false"):
